@@ -390,9 +390,12 @@ class Model(Object):
             "annotation",
             "groups",
         }
+        # mutable containers must not be shared between the two models
+        copy_deep = {"notes", "_annotation", "_compartments", "_sbml"}
         for attr in self.__dict__:
             if attr not in do_not_copy_by_ref:
-                new.__dict__[attr] = self.__dict__[attr]
+                value = self.__dict__[attr]
+                new.__dict__[attr] = deepcopy(value) if attr in copy_deep else value
         new.notes = deepcopy(self.notes)
         new.annotation = deepcopy(self.annotation)
 
@@ -402,7 +405,9 @@ class Model(Object):
             new_met = metabolite.__class__()
             for attr, value in metabolite.__dict__.items():
                 if attr not in do_not_copy_by_ref:
-                    new_met.__dict__[attr] = copy(value) if attr == "formula" else value
+                    new_met.__dict__[attr] = (
+                        deepcopy(value) if attr in copy_deep else value
+                    )
             new_met._model = new
             new.metabolites.append(new_met)
 
@@ -412,7 +417,7 @@ class Model(Object):
             for attr, value in gene.__dict__.items():
                 if attr not in do_not_copy_by_ref:
                     new_gene.__dict__[attr] = (
-                        copy(value) if attr == "formula" else value
+                        deepcopy(value) if attr in copy_deep else value
                     )
             new_gene._model = new
             new.genes.append(new_gene)
@@ -423,7 +428,9 @@ class Model(Object):
             new_reaction = reaction.__class__()
             for attr, value in reaction.__dict__.items():
                 if attr not in do_not_copy_by_ref:
-                    new_reaction.__dict__[attr] = copy(value)
+                    new_reaction.__dict__[attr] = (
+                        deepcopy(value) if attr in copy_deep else copy(value)
+                    )
             new_reaction._model = new
             new.reactions.append(new_reaction)
             # update awareness
@@ -441,7 +448,9 @@ class Model(Object):
             new_group: Group = group.__class__(group.id)
             for attr, value in group.__dict__.items():
                 if attr not in do_not_copy_by_ref:
-                    new_group.__dict__[attr] = copy(value)
+                    new_group.__dict__[attr] = (
+                        deepcopy(value) if attr in copy_deep else copy(value)
+                    )
             new_group._model = new
             new.groups.append(new_group)
         for group in self.groups:
